@@ -56,6 +56,7 @@ class Ctx:
         self.tlc_runs = []
         self.exhaustive = True
         self.drift = 0
+        self.scale = 1.0          # C01 re-uses family parts on a fraction of their replay samples
         kf = os.path.join(ROOT, "known_findings.json")
         self.findings = json.load(open(kf)) if os.path.exists(kf) else []
 
@@ -66,6 +67,10 @@ class Ctx:
 
     def pick(self, q, t):
         return q if self.quick else t
+
+    def n(self, k):
+        """sample size scaled by ctx.scale"""
+        return max(50, int(k * self.scale))
 
     def log(self, *a):
         print("[%s %6.1fs]" % (self.pid, time.time() - self.t0), *a, file=sys.stderr, flush=True)
